@@ -28,7 +28,23 @@ RemapType(s, texcb) ==
   IN IF n = 6 THEN "IMPDEF"
      ELSE CASE tr = 0 -> "SO" [] tr = 1 -> "DEV" [] tr = 2 -> "NORMAL" [] tr = 3 -> "UNK"
 
-\* result of the walk: [f |-> "ok", pa, ext, domain, level, ap, texcb] or [f |-> fault type, level, domain]
+\* RemappedTEXDecode(texcb, S): full memory attributes under TEX remap.  region n = TEX<0>:C:B; PRRR.TRn type;
+\* Normal: NMRR.IRn / NMRR.ORn through ConvertAttrsHints, shareable = PRRR.NS0/NS1 selected by the descriptor's S bit,
+\* outer shareable additionally needs PRRR.NOSn = 0
+RemapAttrs(s, texcb, sbit) ==
+  LET n  == texcb % 8
+      tr == Slice(s.sys.PRRR, 2 * n + 1, 2 * n)
+      ir == Slice(s.sys.NMRR, 2 * n + 1, 2 * n)
+      or == Slice(s.sys.NMRR, 2 * n + 17, 2 * n + 16)
+      sh == IF sbit = 0 THEN Bit(s.sys.PRRR, 18) ELSE Bit(s.sys.PRRR, 19)
+      nos == Bit(s.sys.PRRR, 24 + n)
+  IN IF n = 6 THEN AttrUnknown
+     ELSE CASE tr = 0 -> AttrSO
+            [] tr = 1 -> AttrDevice
+            [] tr = 2 -> MkAttr("NORMAL", ConvAttrs(ir), ConvHints(ir), ConvAttrs(or), ConvHints(or), sh, sh * (1 - nos), {})
+            [] tr = 3 -> AttrUnknown
+
+\* result of the walk: [f |-> "ok", pa, ext, domain, level, ap, texcb, sb (S bit), nsb (NS bit)] or [f |-> fault type, level, domain]
 WalkSD(s, mva) ==
   LET n0   == TTBCR_N(s)
       use0 == n0 = 0 \/ IsZeroW(LSRw(mva, 32 - n0))
@@ -53,9 +69,11 @@ WalkSD(s, mva) ==
                        ELSE [f |-> "HWAF", level |-> 2, domain |-> dom]
              ELSE IF Bit(l2, 1) = 0
                   THEN [f |-> "ok", level |-> 2, domain |-> dom, ap |-> ap, ext |-> 0, blk |-> "large",
+                        sb |-> Bit(l2, 10), nsb |-> Bit(l1, 3),
                         texcb |-> Slice(l2, 14, 12) * 4 + Slice(l2, 3, 2),
                         pa |-> WOr(WAnd(l2, <<MM, 0>>), WAnd(mva, <<0, MM>>))]
                   ELSE [f |-> "ok", level |-> 2, domain |-> dom, ap |-> ap, ext |-> 0, blk |-> "small",
+                        sb |-> Bit(l2, 10), nsb |-> Bit(l1, 3),
                         texcb |-> Slice(l2, 8, 6) * 4 + Slice(l2, 3, 2),
                         pa |-> WOr(WAnd(l2, <<MM, M - 4096>>), WAnd(mva, <<0, 4095>>))]
         ELSE \* section or supersection
@@ -68,8 +86,10 @@ WalkSD(s, mva) ==
                   ELSE [f |-> "HWAF", level |-> 1, domain |-> dom]
              ELSE IF ~super
                   THEN [f |-> "ok", level |-> 1, domain |-> dom, ap |-> ap, ext |-> 0, blk |-> "section",
+                        sb |-> Bit(l1, 16), nsb |-> Bit(l1, 19),
                         texcb |-> texcb, pa |-> WOr(WAnd(l1, <<M - 16, 0>>), WAnd(mva, <<15, MM>>))]
                   ELSE [f |-> "ok", level |-> 1, domain |-> dom, ap |-> ap, blk |-> "super",
+                        sb |-> Bit(l1, 16), nsb |-> Bit(l1, 19),
                         ext |-> Slice(l1, 8, 5) * 16 + Slice(l1, 23, 20),
                         texcb |-> texcb, pa |-> WOr(WAnd(l1, <<M - 256, 0>>), WAnd(mva, <<255, MM>>))]
 
@@ -99,6 +119,22 @@ MAIRType(s, idx) ==
      ELSE IF hi4 \div 4 = 1 /\ hi4 % 4 # 0 THEN "IMPDEF"
      ELSE IF (lo4 \div 8 = 1) \/ (lo4 % 8 = 4) THEN "NORMAL" ELSE "IMPDEF"
 
+\* MAIRDecode(attrindx) + the SH field of the block/page descriptor -> memory attributes.  The transient forms
+\* (Attr<7:6> = 00, Attr<7:4> = 01xx with xx # 00, Attr<3:0> = 0xxx other than 0100) are IMPLEMENTATION DEFINED here.
+MAIRAttrs(s, idx, shf) ==
+  LET reg  == IF idx < 4 THEN s.sys.MAIR0 ELSE s.sys.MAIR1
+      k    == idx % 4
+      attr == Slice(reg, 8 * k + 7, 8 * k)
+      hi4  == attr \div 16  lo4 == attr % 16
+      sh   == shf \div 2   osh == B2N(shf = 2)
+      outerOK == hi4 = 4 \/ hi4 >= 8
+      innerOK == lo4 >= 8 \/ lo4 = 4
+      oa == IF hi4 = 4 THEN 0 ELSE hi4 \div 4    oh == IF hi4 = 4 THEN 0 ELSE hi4 % 4
+      ia == IF lo4 = 4 THEN 0 ELSE lo4 \div 4    ih == IF lo4 = 4 THEN 0 ELSE lo4 % 4
+  IN IF hi4 = 0 THEN (IF lo4 = 0 THEN AttrSO ELSE IF lo4 = 4 THEN AttrDevice ELSE AttrUnknown)
+     ELSE IF ~outerOK THEN AttrUnknown
+     ELSE MkAttr("NORMAL", ia, ih, oa, oh, sh, osh, IF innerOK THEN {} ELSE {"ia", "ih"})
+
 \* the levels below the first lookup: level in 2..3, base = <<pa, ext>>, accumulated table attributes
 RECURSIVE WalkLDFrom(_, _, _, _, _, _, _, _)
 WalkLDFrom(s, ia, level, first, startbit, base, tbl, unp) ==
@@ -112,14 +148,18 @@ WalkLDFrom(s, ia, level, first, startbit, base, tbl, unp) ==
      THEN WalkLDFrom(s, ia, level + 1, FALSE, startbit, <<WAnd(d.lo, <<MM, M - 4096>>), Slice(d.hi, 7, 0)>>,
                      [rw   |-> tbl.rw /\ Bit(d.hi, 30) = 0,      \* APTable<1>
                       user |-> tbl.user /\ Bit(d.hi, 29) = 0,    \* APTable<0>
-                      xn   |-> tbl.xn \/ Bit(d.hi, 28) = 1, pxn |-> tbl.pxn \/ Bit(d.hi, 27) = 1], unp)
+                      xn   |-> tbl.xn \/ Bit(d.hi, 28) = 1, pxn |-> tbl.pxn \/ Bit(d.hi, 27) = 1,
+                      sec  |-> tbl.sec /\ Bit(d.hi, 31) = 0],   \* NSTable: once set, the rest of the lookup is Non-secure
+                     unp)
      ELSE \* block (levels 1, 2) or page (level 3)
        LET ap2 == IF tbl.rw THEN Bit(d.lo, 7) ELSE 1
            ap1 == IF tbl.user THEN Bit(d.lo, 6) ELSE 0
        IN IF Bit(d.lo, 10) = 0 THEN [f |-> "ACCESS_FLAG", level |-> level, unp |-> unp]
           ELSE [f |-> "ok", level |-> level, unp |-> unp, ap |-> ap2 * 4 + ap1 * 2 + 1,
                 pa |-> WOr(WAnd(d.lo, TopMask(32 - lsb)), WAnd(ia, MaskW(lsb - 1, 0))), ext |-> Slice(d.hi, 7, 0),
-                mt |-> MAIRType(s, Slice(d.lo, 4, 2))]
+                mt |-> MAIRType(s, Slice(d.lo, 4, 2)),
+                at |-> MAIRAttrs(s, Slice(d.lo, 4, 2), Slice(d.lo, 9, 8)),
+                nsb |-> IF tbl.sec THEN Bit(d.lo, 5) ELSE 1]
 
 WalkLD(s, ia) ==
   LET t0 == TTBCR_T0SZ(s)  t1 == TTBCR_T1SZ(s)
@@ -134,7 +174,7 @@ WalkLD(s, ia) ==
       base == <<WAnd(ttlo, TopMask(32 - lb)), Slice(tthi, 7, 0)>>
       unp  == lb > 3 /\ Slice(ttlo, lb - 1, 3) # 0
   IN IF (~use0 /\ ~use1) \/ dis THEN [f |-> "TRANSLATION", level |-> 1, unp |-> FALSE]
-     ELSE WalkLDFrom(s, ia, level, TRUE, 31 - tsz, base, [rw |-> TRUE, user |-> TRUE, xn |-> FALSE, pxn |-> FALSE], unp)
+     ELSE WalkLDFrom(s, ia, level, TRUE, 31 - tsz, base, [rw |-> TRUE, user |-> TRUE, xn |-> FALSE, pxn |-> FALSE, sec |-> IsSecure(s)], unp)
 
 \* CheckPermission for VMSA: AP<0> forced to 1 under AFE; AP = 100 reserved; 111 = read-only
 PermAbortV(ap0, afe, priv, iswrite) ==
@@ -190,4 +230,21 @@ TranslateV(x, va, priv, iswrite, size, wasaligned) ==
                  IF dac = 1 /\ PermAbortV(w.ap, SCTLR_AFE(s), priv, iswrite)
                  THEN [x |-> DataAbortSD(x2, mva, iswrite, "PERMISSION", w.level, w.domain), pa |-> w.pa, ext |-> w.ext]
                  ELSE [x |-> x2, pa |-> w.pa, ext |-> w.ext]
+\* memory attributes and paddress.NS of the address descriptor a SUCCESSFUL stage-1 translation returns
+\* (evaluated by the Translate trace action only; ns = 2 means not claimed)
+AttrsV(s, va) ==
+  LET mva   == FCSETranslate(s, va)
+      ishyp == Mode(s) = HYP
+      on    == (ishyp /\ HSCTLR_M(s) = 1) \/ ((~ishyp) /\ SCTLR_M(s) = 1)
+      nsOut(b) == IF IsSecure(s) THEN b ELSE 1
+  IN IF ~on THEN
+       LET so == (~s.cfg.virt) \/ HCR_DC(s) = 0 \/ IsSecure(s) \/ ishyp
+       IN [at |-> IF so THEN AttrSO ELSE MkAttr("NORMAL", 3, 3, 3, 3, 0, 0, {}), ns |-> nsOut(0)]
+     ELSE IF ishyp THEN [at |-> AttrUnknown, ns |-> 2]
+     ELSE IF TTBCR_EAE(s) = 1 THEN
+       LET w == WalkLD(s, mva) IN
+       IF w.f = "ok" THEN [at |-> w.at, ns |-> nsOut(w.nsb)] ELSE [at |-> AttrUnknown, ns |-> 2]
+     ELSE
+       LET w == WalkSD(s, mva) IN
+       IF w.f = "ok" THEN [at |-> RemapAttrs(s, w.texcb, w.sb), ns |-> nsOut(w.nsb)] ELSE [at |-> AttrUnknown, ns |-> 2]
 =============================================================================
